@@ -126,7 +126,7 @@ package flow
 //@ spec func waiting(r) = r != nil && r.status == base.ResultStatusShouldWait
 // the checker's limits are the rule's, converted to nanoseconds in 64 bits (a queueing limit above 4.29 s must not wrap)
 //@ func NewThrottlingChecker(owner, timeoutMs, statIntervalMs) r
-//@   props C10
+//@   props C10, C13, C14
 //@   ensures[limits-are-the-rules-in-nanoseconds] r != nil && fresh(r) && r.owner == owner && r.lastPassedTime == 0 && r.maxQueueingTimeNs == timeoutMs * 1000000 && r.statIntervalNs == (statIntervalMs == 0 ? 1000 : statIntervalMs) * 1000000
 //@   modifies nothing
 
@@ -246,6 +246,7 @@ package flow
 //@   ensures[inv] wuInv(cast(dynptr(r), WarmUpTrafficShapingCalculator))
 //@   ensures[cold-start-slope] wuSlope(cast(dynptr(r), WarmUpTrafficShapingCalculator))
 //@   ensures[empty-bucket] cast(dynptr(r), WarmUpTrafficShapingCalculator).storedTokens == 0
+//@   ensures[warning-line-and-cap-from-the-effective-cold-factor] rule.Threshold > 0.0 && cf < 4294967295 && 2.0 * R(rule.WarmUpPeriodSec) * rule.Threshold >= R(1 + cf) ==> cast(dynptr(r), WarmUpTrafficShapingCalculator).coldFactor == cf && cast(dynptr(r), WarmUpTrafficShapingCalculator).warningToken == trunc(R(rule.WarmUpPeriodSec) * rule.Threshold / R(cf - 1)) && cast(dynptr(r), WarmUpTrafficShapingCalculator).maxToken == cast(dynptr(r), WarmUpTrafficShapingCalculator).warningToken + trunc(2.0 * R(rule.WarmUpPeriodSec) * rule.Threshold / R(1 + cf)) && cast(dynptr(r), WarmUpTrafficShapingCalculator).threshold == rule.Threshold
 //@   ensures[loaded-rule-left-untouched]{C11,C13,C14} frame()
 //@   modifies nothing
 
@@ -318,7 +319,7 @@ package flow
 //@ spec func statReusable(a, b) = b != nil && a.Resource == b.Resource && a.RelationStrategy == b.RelationStrategy && a.RefResource == b.RefResource && a.StatIntervalInMs == b.StatIntervalInMs && needStat(a) && needStat(b)
 
 //@ func (r *Rule) isEqualsTo(newRule) res
-//@   props C14, C13
+//@   props C14, C13, C10
 //@   requires r != nil
 //@   ensures[def] res <==> eqRule(r, newRule)
 //@   ensures[identical-rules-are-equal] newRule != nil && sameButThreshold(r, newRule) && r.Threshold == newRule.Threshold ==> res
@@ -333,7 +334,7 @@ package flow
 // equalIdx is the first old controller whose rule equals r (else -1); reuseStatIdx the first statistic-compatible
 // one before it (else -1)
 //@ func calculateReuseIndexFor(r, oldResTcs) (equalIdx, reuseStatIdx)
-//@   props C14, C13
+//@   props C14, C13, C10
 //@   requires forall j Int :: 0 <= j && j < len(oldResTcs) ==> oldResTcs[j] != nil && oldResTcs[j].rule != nil
 //@   let n = len(oldResTcs)
 //@   ensures[ranges] 0 - 1 <= equalIdx && equalIdx < n && 0 - 1 <= reuseStatIdx && reuseStatIdx < n
